@@ -457,4 +457,165 @@ Section Families.
           rewrite Hia. cbn [fw fans ffound fed_from fold_left]. repeat split; auto. rewrite orb_true_r; auto.
         * cbn [fw fans ffound]. repeat split; auto. rewrite orb_true_r; auto.
   Qed.
+
+  Lemma fam_items_filter_same : forall q (lv : list row),
+    fam_items q (filter (fun r => rq r =? q) lv) = fam_items q lv.
+  Proof.
+    intros q lv. induction lv as [|r lv IH]; auto. simpl.
+    destruct (rq r =? q) eqn:E; rewrite !fam_items_cons, ?E, IH; auto.
+  Qed.
+
+  Lemma fam_items_filter_other : forall q q' (lv : list row), q <> q' ->
+    fam_items q' (filter (fun r => rq r =? q) lv) = [].
+  Proof.
+    intros q q' lv Hne. induction lv as [|r lv IH]; auto. simpl.
+    destruct (rq r =? q) eqn:E; auto. rewrite fam_items_cons, IH.
+    apply N.eqb_eq in E. rewrite E. apply N.eqb_neq in Hne. rewrite Hne. auto.
+  Qed.
+
+  Lemma feed_filter_records : forall max q (lv : list row), q = TypeA \/ q = TypeAAAA ->
+    let w := feed klt max (filter (fun r => rq r =? q) lv) in
+    recs_or_nil kpos w TypeA ++ recs_or_nil kpos w TypeAAAA = map snd (live kpos (run klt max (fam_items q lv)))
+    /\ weighted w = (1 <? N.of_nat (length (fam_items q lv)) mod two32).
+  Proof.
+    intros max q lv Hq. cbn zeta.
+    destruct (feed_spec max (filter (fun r => rq r =? q) lv)) as (_ & H4 & H6 & C4 & C6).
+    unfold recs_or_nil, records, weighted. cbn [N.eqb TypeA TypeAAAA Pos.eqb].
+    rewrite H4, H6, C4, C6. destruct Hq; subst q.
+    - rewrite fam_items_filter_same, fam_items_filter_other by discriminate.
+      cbn. rewrite app_nil_r, orb_false_r. auto.
+    - rewrite fam_items_filter_same, fam_items_filter_other by discriminate.
+      cbn. auto.
+  Qed.
+
+  (* an address query at a level that has rows: the answer is the CNAME rows
+     followed by the sample of the family; recordFound is set *)
+  Theorem find_answer_addr : forall q max (lv : list row) rest,
+    q = TypeA \/ q = TypeAAAA -> lv <> [] ->
+    find_answer klt kpos q max (lv :: rest)
+    = (cnames lv ++ map snd (live kpos (run klt max (fam_items q lv))),
+       (1 <? N.of_nat (length (fam_items q lv)) mod two32), true).
+  Proof.
+    intros q max lv rest Hq Hne. unfold find_answer. cbn [find_levels].
+    destruct (parse_fold_addr q lv (mkF (wrs_new max) [] false) Hq) as (Hw & Ha & Hf).
+    cbn [fw fans ffound] in *. rewrite Hf.
+    assert (Hl : negb (length lv =? 0)%nat = true) by (destruct lv; [congruence|auto]).
+    rewrite Hl. cbn [orb fw fans ffound]. rewrite Ha, Hw.
+    change (fed_from (wrs_new max) (filter (fun r => rq r =? q) lv)) with (feed klt max (filter (fun r => rq r =? q) lv)).
+    destruct (feed_filter_records max q lv Hq) as [Hr Hwt]. cbn zeta in Hr, Hwt.
+    rewrite Hr, Hwt. auto.
+  Qed.
+
+  Lemma pay_inj : forall (lv : list row) r r', NoDup (map rpay lv) ->
+    In r lv -> In r' lv -> rpay r' = rpay r -> r' = r.
+  Proof.
+    induction lv as [|a lv IH]; intros r r' Hnd Hr Hr' Hp; [destruct Hr|].
+    simpl in Hnd. inversion Hnd; subst.
+    destruct Hr as [-> | Hr], Hr' as [-> | Hr']; auto.
+    - exfalso. apply H1. apply in_map_iff. exists r'; auto.
+    - exfalso. apply H1. apply in_map_iff. exists r; auto.
+  Qed.
+
+  Lemma run_in_rows : forall max q (lv : list row) it, In it (run klt max (fam_items q lv)) ->
+    exists r, In r lv /\ rq r = q /\ rkey r = fst it /\ rpay r = snd it.
+  Proof.
+    intros max q lv it Hit. destruct (Z_le_gt_dec 1 max) as [Hmax | Hmax].
+    - apply fam_items_in.
+      apply (topk_incl _ _ _ _ _ _ (run_topk K klt A klt_irrefl klt_trans max _ Hmax)); auto.
+    - rewrite (run_nonpositive_max K klt A) in Hit by lia. destruct Hit.
+  Qed.
+
+  (* a visible address record whose key is 0 is never part of the answer, and
+     the name is still reported as existing (no NXDOMAIN) *)
+  Theorem zero_key_not_served_but_found : forall q max (lv : list row) rest r,
+    q = TypeA \/ q = TypeAAAA -> NoDup (map rpay lv) ->
+    In r lv -> rq r = q -> kpos (rkey r) = false ->
+    let res := find_answer klt kpos q max (lv :: rest) in
+    ~ In (rpay r) (fst (fst res)) /\ snd res = true /\ nxdomain res = false.
+  Proof.
+    intros q max lv rest r Hq Hnd Hr Hrq Hz. cbn zeta.
+    assert (Hne : lv <> []) by (intros ->; destruct Hr).
+    rewrite (find_answer_addr q max lv rest Hq Hne). cbn [fst snd nxdomain negb andb].
+    rewrite andb_false_r. repeat split; auto.
+    intros Hin. apply in_app_or in Hin. destruct Hin as [Hin | Hin].
+    - (* a CNAME row with the same payload would be the same row *)
+      unfold cnames in Hin. apply in_map_iff in Hin. destruct Hin as (r' & Hp & Hr').
+      apply filter_In in Hr'. destruct Hr' as [Hr' Hc]. apply N.eqb_eq in Hc.
+      assert (r' = r) by (eapply pay_inj; eauto).
+      subst r'. rewrite Hrq in Hc. destruct Hq; subst q; discriminate.
+    - apply in_map_iff in Hin. destruct Hin as (it & Hp & Hit).
+      apply live_in in Hit. destruct Hit as [Hit Hpos].
+      apply run_in_rows in Hit. destruct Hit as (r' & Hr' & _ & Hk & Hp').
+      assert (r' = r) by (eapply pay_inj; eauto; congruence).
+      subst r'. congruence.
+  Qed.
+
+  (* ---------------------------------------------------------------- *)
+  (* additional section: one NS/MX target, Wrs{MaxAnswers: 1} *)
+
+  Lemma add_parse_fold : forall want4 want6 (rows : list row) (w : wrs),
+    fold_left (add_parse klt want4 want6) rows w
+    = fed_from w (filter (fun r => ((rq r =? TypeA) && want4) || ((rq r =? TypeAAAA) && want6)) rows).
+  Proof.
+    intros want4 want6 rows. induction rows as [|r rows IH]; intros w; auto.
+    cbn [fold_left filter]. rewrite IH. unfold add_parse.
+    destruct (((rq r =? TypeA) && want4) || ((rq r =? TypeAAAA) && want6)); auto.
+  Qed.
+
+  Lemma fam_items_filter_want : forall q (want4 want6 : bool) (rows : list row),
+    q = TypeA \/ q = TypeAAAA ->
+    fam_items q (filter (fun r => ((rq r =? TypeA) && want4) || ((rq r =? TypeAAAA) && want6)) rows)
+    = if (if q =? TypeA then want4 else want6) then fam_items q rows else [].
+  Proof.
+    intros q want4 want6 rows Hq. induction rows as [|r rows IH].
+    - destruct (if q =? TypeA then want4 else want6); auto.
+    - cbn [filter]. rewrite (fam_items_cons q r rows).
+      destruct (rq r =? q) eqn:E.
+      + apply N.eqb_eq in E. rewrite E.
+        destruct Hq; subst q; cbn [N.eqb TypeA TypeAAAA Pos.eqb andb orb] in *.
+        * destruct want4, want6; cbn [andb orb]; rewrite ?fam_items_cons, ?E, ?IH; cbn; auto.
+        * destruct want4, want6; cbn [andb orb]; rewrite ?fam_items_cons, ?E, ?IH; cbn; auto.
+      + destruct (((rq r =? TypeA) && want4) || ((rq r =? TypeAAAA) && want6)); auto.
+        rewrite fam_items_cons, E. auto.
+  Qed.
+
+  (* at most one AAAA and one A record per target, each a declared visible
+     record of the target with a positive key; exactly one when the family is
+     wanted and has a positive key *)
+  Theorem additional_max_one : forall want4 want6 (rows : list row) r6 r4 wt,
+    NoDup (map rpay rows) ->
+    additional klt kpos want4 want6 rows = (r6, r4, wt) ->
+    length r4 = (if want4 then Nat.min 1 (length (filter (fun r : row => (rq r =? TypeA) && kpos (rkey r)) rows)) else 0%nat)
+    /\ length r6 = (if want6 then Nat.min 1 (length (filter (fun r : row => (rq r =? TypeAAAA) && kpos (rkey r)) rows)) else 0%nat)
+    /\ (forall a, In a r4 -> exists r, In r rows /\ rq r = TypeA /\ rpay r = a /\ kpos (rkey r) = true)
+    /\ (forall a, In a r6 -> exists r, In r rows /\ rq r = TypeAAAA /\ rpay r = a /\ kpos (rkey r) = true).
+  Proof.
+    intros want4 want6 rows r6 r4 wt Hnd Hadd. unfold additional in Hadd.
+    destruct (want4 || want6) eqn:Ew.
+    2:{ inversion Hadd; subst. destruct want4, want6; try discriminate. simpl. repeat split; auto; intros ? []. }
+    rewrite add_parse_fold in Hadd.
+    set (flt := filter _ rows) in Hadd.
+    change (fed_from (wrs_new 1) flt) with (feed klt 1 flt) in Hadd.
+    destruct (feed_spec 1 flt) as (_ & H4 & H6 & _).
+    unfold recs_or_nil, records in Hadd. cbn [N.eqb TypeA TypeAAAA Pos.eqb] in Hadd.
+    rewrite H4, H6 in Hadd. unfold flt in Hadd.
+    rewrite !fam_items_filter_want in Hadd by auto. cbn [N.eqb TypeA TypeAAAA Pos.eqb] in Hadd.
+    inversion Hadd; subst r6 r4. clear Hadd.
+    assert (Hone : (1 <= 1)%Z) by lia.
+    assert (Hcnt : forall q, length (live kpos (run klt 1 (fam_items q rows)))
+                    = Nat.min 1 (length (filter (fun r : row => (rq r =? q) && kpos (rkey r)) rows))).
+    { intros q. rewrite <- fam_items_npos.
+      apply (topk_count K klt kpos A kzero_below 1 _ _ (run_topk K klt A klt_irrefl klt_trans 1 _ Hone)). }
+    assert (Hsnd : forall q a, In a (map snd (live kpos (run klt 1 (fam_items q rows)))) ->
+                    exists r, In r rows /\ rq r = q /\ rpay r = a /\ kpos (rkey r) = true).
+    { intros q a Ha. apply in_map_iff in Ha. destruct Ha as (it & <- & Hit).
+      apply live_in in Hit. destruct Hit as [Hit Hpos].
+      apply run_in_rows in Hit. destruct Hit as (r & Hr & Hq & Hk & Hp).
+      exists r. repeat split; auto. congruence. }
+    repeat split.
+    - destruct want4; [rewrite map_length; apply Hcnt|auto].
+    - destruct want6; [rewrite map_length; apply Hcnt|auto].
+    - intros a Ha. destruct want4; [apply Hsnd; auto|destruct Ha].
+    - intros a Ha. destruct want6; [apply Hsnd; auto|destruct Ha].
+  Qed.
 End Families.
